@@ -425,6 +425,11 @@ class _Expr(ast.NodeTransformer):
         if isinstance(node.func, ast.Name) and node.func.id == "list" and len(node.args) == 1 and not node.keywords \
                 and isinstance(node.args[0], ast.GeneratorExp):
             return self.visit(ast.ListComp(elt=node.args[0].elt, generators=node.args[0].generators))
+        if isinstance(node.func, ast.Name) and node.func.id in ("tuple", "sorted", "set", "frozenset", "max", "min") \
+                and len(node.args) == 1 and not node.keywords and isinstance(node.args[0], ast.GeneratorExp):
+            # these consume their argument completely, in order: a generator and the list of its items are alike
+            node.args[0] = self.visit(ast.ListComp(elt=node.args[0].elt, generators=node.args[0].generators))
+            return node
         if isinstance(node.func, ast.Name) and node.func.id in _CTX.get("list_classes", ()) and len(node.args) == 1 \
                 and not node.keywords and isinstance(node.args[0], ast.GeneratorExp):
             # a list subclass built from a generator consumes it at once, like from the list of its items
@@ -760,6 +765,13 @@ def _norm_simple(stmts, ctx):
                 (isinstance(st.value, ast.List) and not st.value.elts) or
                 (isinstance(st.value, ast.Call) and isinstance(st.value.func, ast.Name) and not st.value.args
                  and not st.value.keywords and st.value.func.id in _CTX.get("list_classes", ())))
+            cond_ifs = []
+            if isinstance(st, ast.Assign) and empty_list and isinstance(nxt, ast.For) and not nxt.orelse \
+                    and len(nxt.body) == 1 and isinstance(nxt.body[0], ast.If) and not nxt.body[0].orelse \
+                    and len(nxt.body[0].body) == 1 and isinstance(nxt.body[0].body[0], ast.Expr) and not ctx.get("final"):
+                # for x in S: if P: L.append(E)   ->  the filter of a comprehension
+                cond_ifs = [nxt.body[0].test]
+                nxt = ast.For(target=nxt.target, iter=nxt.iter, body=nxt.body[0].body, orelse=[], lineno=nxt.lineno, col_offset=0)
             if isinstance(st, ast.Assign) and len(st.targets) == 1 and isinstance(st.targets[0], ast.Name) \
                     and empty_list and isinstance(nxt, ast.For) \
                     and not nxt.orelse and len(nxt.body) == 1 and isinstance(nxt.body[0], ast.Expr) \
@@ -773,13 +785,46 @@ def _norm_simple(stmts, ctx):
                 later_use = any(n.id in tnames for s_ in stmts[i + 2:] for n in _names(s_))
                 if not _count_loads(E, L) and not _count_loads(nxt.iter, L) and not later_use \
                         and not any(isinstance(n, (ast.Yield, ast.YieldFrom)) for n in ast.walk(nxt)):
-                    comp = ast.ListComp(elt=E, generators=[ast.comprehension(target=nxt.target, iter=nxt.iter, ifs=[], is_async=0)])
+                    comp = ast.ListComp(elt=E, generators=[ast.comprehension(target=nxt.target, iter=nxt.iter, ifs=cond_ifs, is_async=0)])
                     if isinstance(st.value, ast.Call):
                         comp = ast.Call(func=st.value.func, args=[comp], keywords=[])
                     out.append(ast.Assign(targets=st.targets, value=comp, lineno=st.lineno, col_offset=0))
                     changed = True
                     i += 2
                     continue
+            nxt = stmts[i + 1] if i + 1 < len(stmts) else None
+            # L.reverse() ; x = tuple(L)  (L dead afterwards)   ->   x = tuple(reversed(L))
+            if isinstance(st, ast.Expr) and isinstance(st.value, ast.Call) and isinstance(st.value.func, ast.Attribute) \
+                    and st.value.func.attr == "reverse" and not st.value.args and isinstance(st.value.func.value, ast.Name) \
+                    and isinstance(nxt, ast.Assign) and isinstance(nxt.value, ast.Call) and isinstance(nxt.value.func, ast.Name) \
+                    and nxt.value.func.id in ("tuple", "list") and len(nxt.value.args) == 1 \
+                    and isinstance(nxt.value.args[0], ast.Name) and nxt.value.args[0].id == st.value.func.value.id \
+                    and not ctx.get("final"):
+                L_ = st.value.func.value.id
+                tnames_ = {n.id for t in nxt.targets for n in ast.walk(t) if isinstance(n, ast.Name)}
+                if L_ not in tnames_ and not any(_count_loads(s_, L_) for s_ in stmts[i + 2:]):
+                    rv_ = ast.Call(func=ast.Name(id="reversed", ctx=ast.Load()), args=[ast.Name(id=L_, ctx=ast.Load())], keywords=[])
+                    out.append(ast.Assign(targets=nxt.targets, value=ast.Call(func=nxt.value.func, args=[rv_], keywords=[]),
+                                          lineno=nxt.lineno, col_offset=0))
+                    changed = True
+                    i += 2
+                    continue
+            # D.update(((K, V) for T in S))  on a plain dict attribute   ->   for T in S: D[K] = V
+            if isinstance(st, ast.Expr) and isinstance(st.value, ast.Call) and isinstance(st.value.func, ast.Attribute) \
+                    and st.value.func.attr == "update" and len(st.value.args) == 1 and not st.value.keywords \
+                    and isinstance(st.value.args[0], (ast.GeneratorExp, ast.ListComp)) \
+                    and len(st.value.args[0].generators) == 1 and not st.value.args[0].generators[0].ifs \
+                    and isinstance(st.value.args[0].elt, ast.Tuple) and len(st.value.args[0].elt.elts) == 2 \
+                    and isinstance(st.value.func.value, ast.Attribute) and st.value.func.value.attr in _CTX.get("dict_attrs", ()) \
+                    and not ctx.get("final"):
+                g_ = st.value.args[0].generators[0]
+                k_, v_ = st.value.args[0].elt.elts
+                store = ast.Assign(targets=[ast.Subscript(value=st.value.func.value, slice=k_, ctx=ast.Store())], value=v_,
+                                   lineno=st.lineno, col_offset=0)
+                out.append(ast.For(target=g_.target, iter=g_.iter, body=[store], orelse=[], lineno=st.lineno, col_offset=0))
+                changed = True
+                i += 1
+                continue
             # x = E ; while x: BODY ; x = E      ->   while True: x = E; if not x: break; BODY     (BODY has no continue)
             if isinstance(st, ast.Assign) and len(st.targets) == 1 and isinstance(st.targets[0], ast.Name) \
                     and isinstance(nxt, ast.While) and isinstance(nxt.test, ast.Name) and nxt.test.id == st.targets[0].id \
@@ -1695,7 +1740,23 @@ def _inline_all(f, helpers, methods):
     return f
 
 
-_CTX = {"generators": set(), "list_classes": set()}
+_CTX = {"generators": set(), "list_classes": set(), "dict_attrs": set()}
+
+
+def plain_dict_attrs(tree):
+    """attribute names that are only ever bound to a new plain dict ({} / dict()) in the module"""
+    good, bad = set(), set()
+    for n in ast.walk(tree):
+        if isinstance(n, ast.Assign):
+            for t in n.targets:
+                if isinstance(t, ast.Attribute):
+                    v = n.value
+                    if (isinstance(v, ast.Dict) and not v.keys) or (isinstance(v, ast.Call) and isinstance(v.func, ast.Name)
+                                                                    and v.func.id == "dict" and not v.args and not v.keywords):
+                        good.add(t.attr)
+                    else:
+                        bad.add(t.attr)
+    return good - bad
 
 
 def module_generators(tree):
@@ -1960,7 +2021,20 @@ def canonical_ast(fn, helpers, methods=None, hier=None, segment=False):
             break
     bound = frozenset(_bound(f))
     f = number(f, bound, locals_too=not segment)
-    f = _Expr([f.args.vararg.arg] if f.args.vararg else (), f).visit(f)
+    tuple_locals = set([f.args.vararg.arg] if f.args.vararg else ())
+    binds = {}
+    for n_ in ast.walk(f):
+        if isinstance(n_, ast.Name) and isinstance(n_.ctx, (ast.Store, ast.Del)):
+            binds.setdefault(n_.id, []).append(None)
+    for n_ in ast.walk(f):
+        if isinstance(n_, ast.Assign) and len(n_.targets) == 1 and isinstance(n_.targets[0], ast.Name):
+            v_ = n_.value
+            if isinstance(v_, ast.Tuple) or (isinstance(v_, ast.Call) and isinstance(v_.func, ast.Name) and v_.func.id == "tuple"):
+                binds[n_.targets[0].id].append("tuple")
+    for nm_, lst_ in binds.items():
+        if lst_.count("tuple") * 2 == len(lst_) and lst_.count("tuple") >= 1 and nm_ not in _scope_params(f):
+            tuple_locals.add(nm_)
+    f = _Expr(tuple_locals, f).visit(f)
     ast.fix_missing_locations(f)
     f.body = _norm_region(f.body, None if segment else "func", {"root": f, "defined": params, "final": True,
                                            "bound": frozenset(_bound(f)) | params})
@@ -2026,10 +2100,12 @@ class SegmentAdopter(object):
         self.adopted = 0
         self.cache = {}
         self.gens_c, self.gens_r = set(), set()
+        self.dattr_c, self.dattr_r = set(), set()
 
     def key(self, fn, stmts, cur):
         live = _stored(stmts) & _loaded_outside(fn, stmts)
         _CTX["generators"] = self.gens_c if cur else self.gens_r
+        _CTX["dict_attrs"] = self.dattr_c if cur else self.dattr_r
         try:
             f = _seg_function(stmts, live)
             return ast.dump(canonical_ast(f, self.hc if cur else self.hr, self.mc if cur else self.mr,
@@ -2185,6 +2261,7 @@ def adopt_segments(tree, ref_tree, hier_cur=None, hier_ref=None, skip=()):
             return out
         ad = SegmentAdopter(helpers_cur, helpers_ref, mt(meth_cur, hier_cur), mt(meth_ref, hier_ref), hier_cur, hier_ref)
         ad.gens_c, ad.gens_r = module_generators(tree), module_generators(ref_tree)
+        ad.dattr_c, ad.dattr_r = plain_dict_attrs(tree), plain_dict_attrs(ref_tree)
         node.body = ad.blocks(node, r, node.body, r.body)
         if ad.adopted:
             done[key] = ad.adopted
@@ -2250,6 +2327,7 @@ def adopt_reference(tree, ref_tree, hier_cur=None, hier_ref=None):
     helpers_ref = helper_table(ref_tree)
     meth_cur, meth_ref = method_tables(tree), method_tables(ref_tree)
     gens_cur, gens_ref = module_generators(tree), module_generators(ref_tree)
+    dattr_cur, dattr_ref = plain_dict_attrs(tree), plain_dict_attrs(ref_tree)
     ref = {k: n for k, n, _, _ in units(ref_tree)}
     adopted = []
     for key, node, container, idx in units(tree):
@@ -2271,8 +2349,10 @@ def adopt_reference(tree, ref_tree, hier_cur=None, hier_ref=None):
                 out.update(tables.get(cls, {}))
                 return out
             _CTX["generators"] = gens_cur
+            _CTX["dict_attrs"] = dattr_cur
             ccur = canonical(fc, helpers_cur, mt(meth_cur, hier_cur), hier_cur)
             _CTX["generators"] = gens_ref
+            _CTX["dict_attrs"] = dattr_ref
             cref = canonical(fr, helpers_ref, mt(meth_ref, hier_ref), hier_ref)
             if ccur == cref:
                 new = copy.deepcopy(r)
